@@ -1,10 +1,1418 @@
-//! C06 — (stub; filled in during the build phase)
+//! C06 — conditional compilation selects exactly the right lines, in place.
+//!
+//! Every case builds one or more Slice files out of *lines* (probe definitions `struct P<row> {}` /
+//! `struct P<row> { x: Nope }`, blank lines, preprocessor directives — well formed or not), compiles them with
+//! the REAL compiler (`slicec::compile_from_strings` with `SliceOptions.defined_symbols`, i.e. the `-D` option)
+//! and compares with a reference preprocessor written from the property statement:
+//!
+//! * line classification (first non-blank character `#` = directive), `#if/#elif/#else/#endif` nesting with a
+//!   stack, `#define/#undef` effective only inside selected regions, only from that line on, only in that file;
+//! * the expression language is the one the statement names (`!`, `&&`, `||`, parentheses) with the shape fixed
+//!   in DESIGN §8 ("Semantics confirmed"): `expr := ['!'] term {('&&'|'||') term}`, `term := ident | '(' expr ')'`,
+//!   i.e. `!` only before the first term of an expression, `&&`/`||` of equal precedence, left associative.
+//!   A text this grammar does not derive is a malformed directive;
+//! * well-formedness is a property of the whole line sequence (context-free nesting check + every directive
+//!   individually well formed), independent of symbol values: directives inside unselected regions count.
+//!
+//! Oracle.  Well-formed ⇒ (1) no Error diagnostic other than the E033 each surviving `Nope` probe must produce,
+//! (2) the identifiers in `files[i].contents` are exactly the selected probes, (3) each at its original row and
+//! column, (4) every E033 sits on the row of its probe at the column of `Nope`.  Ill-formed ⇒ at least one E002
+//! (no exact count: a lexer error inside a directive replaces earlier recovered errors) attributed to the
+//! ill-formed file.  No panic anywhere.
+//!
+//! Softenings (things the statement leaves open are not flagged): number and position of E002s; what
+//! `contents` holds after a syntax error; whether other files of a set are still parsed when one is ill-formed;
+//! warnings; the order of definitions and diagnostics (compared as sets); span *ends*.
 
 use super::PropMeta;
 use crate::engine::*;
+use crate::util::*;
+use serde_json::{json, Value};
+use slicec::diagnostics::DiagnosticLevel;
+use slicec::slice_options::SliceOptions;
+use std::collections::{BTreeMap, BTreeSet};
 
-pub fn meta(_m: &mut PropMeta) {}
+// =====================================================================================================
+// Reference preprocessor (works on the rendered TEXT, so it is independent of how the text was generated)
+// =====================================================================================================
 
-pub fn families(_tier: &str) -> Vec<Box<dyn Family>> {
-    vec![]
+#[derive(Clone, Debug, PartialEq)]
+enum Tok {
+    Ident(String),
+    Not,
+    And,
+    Or,
+    LPar,
+    RPar,
+}
+
+/// Tokens of the argument part of a directive; `None` = contains something that is not a directive token.
+/// A `//` comment ends the directive.
+fn tokenize(s: &str) -> Option<Vec<Tok>> {
+    let cs: Vec<char> = s.chars().collect();
+    let mut i = 0;
+    let mut out = vec![];
+    while i < cs.len() {
+        let c = cs[i];
+        let next = cs.get(i + 1).copied();
+        if c.is_whitespace() {
+            i += 1;
+        } else if c == '/' && next == Some('/') {
+            break;
+        } else if c == '(' {
+            out.push(Tok::LPar);
+            i += 1;
+        } else if c == ')' {
+            out.push(Tok::RPar);
+            i += 1;
+        } else if c == '!' {
+            out.push(Tok::Not);
+            i += 1;
+        } else if c == '&' && next == Some('&') {
+            out.push(Tok::And);
+            i += 2;
+        } else if c == '|' && next == Some('|') {
+            out.push(Tok::Or);
+            i += 2;
+        } else if c.is_ascii_alphabetic() {
+            let mut j = i;
+            while j < cs.len() && (cs[j].is_ascii_alphanumeric() || cs[j] == '_') {
+                j += 1;
+            }
+            out.push(Tok::Ident(cs[i..j].iter().collect()));
+            i = j;
+        } else {
+            return None;
+        }
+    }
+    Some(out)
+}
+
+#[derive(Clone, Debug, PartialEq)]
+enum RExpr {
+    Sym(String),
+    Not(Box<RExpr>),
+    And(Box<RExpr>, Box<RExpr>),
+    Or(Box<RExpr>, Box<RExpr>),
+}
+
+fn parse_term(t: &[Tok], p: &mut usize) -> Option<RExpr> {
+    match t.get(*p) {
+        Some(Tok::Ident(s)) => {
+            *p += 1;
+            Some(RExpr::Sym(s.clone()))
+        }
+        Some(Tok::LPar) => {
+            *p += 1;
+            let e = parse_expr(t, p)?;
+            if t.get(*p) == Some(&Tok::RPar) {
+                *p += 1;
+                Some(e)
+            } else {
+                None
+            }
+        }
+        _ => None,
+    }
+}
+
+/// expr := ['!'] term { ('&&' | '||') term }   — equal precedence, left associative.
+fn parse_expr(t: &[Tok], p: &mut usize) -> Option<RExpr> {
+    let mut left = if t.get(*p) == Some(&Tok::Not) {
+        *p += 1;
+        RExpr::Not(Box::new(parse_term(t, p)?))
+    } else {
+        parse_term(t, p)?
+    };
+    loop {
+        match t.get(*p) {
+            Some(Tok::And) => {
+                *p += 1;
+                let r = parse_term(t, p)?;
+                left = RExpr::And(Box::new(left), Box::new(r));
+            }
+            Some(Tok::Or) => {
+                *p += 1;
+                let r = parse_term(t, p)?;
+                left = RExpr::Or(Box::new(left), Box::new(r));
+            }
+            _ => return Some(left),
+        }
+    }
+}
+
+fn parse_full_expr(t: &[Tok]) -> Option<RExpr> {
+    let mut p = 0;
+    let e = parse_expr(t, &mut p)?;
+    if p == t.len() {
+        Some(e)
+    } else {
+        None
+    }
+}
+
+fn eval(e: &RExpr, syms: &BTreeSet<String>) -> bool {
+    match e {
+        RExpr::Sym(s) => syms.contains(s),
+        RExpr::Not(a) => !eval(a, syms),
+        RExpr::And(a, b) => eval(a, syms) && eval(b, syms),
+        RExpr::Or(a, b) => eval(a, syms) || eval(b, syms),
+    }
+}
+
+#[derive(Clone, Debug, PartialEq)]
+enum Dir {
+    Define(String),
+    Undef(String),
+    If(RExpr),
+    Elif(RExpr),
+    Else,
+    Endif,
+    Malformed,
+}
+
+#[derive(Clone, Debug, PartialEq)]
+enum LineKind {
+    Source,
+    Blank,
+    Directive(Dir),
+}
+
+/// Classify one line (without its '\n'; a trailing '\r' is white space).
+fn classify(raw: &str) -> LineKind {
+    let t = raw.trim_start();
+    if t.trim_end().is_empty() {
+        return LineKind::Blank;
+    }
+    if !t.starts_with('#') {
+        return LineKind::Source;
+    }
+    let rest = t[1..].trim_start();
+    let kw_len = rest.chars().take_while(|c| c.is_ascii_alphanumeric() || *c == '_').count();
+    let (kw, args) = rest.split_at(kw_len); // ASCII only, so chars == bytes
+    let Some(toks) = tokenize(args) else { return LineKind::Directive(Dir::Malformed) };
+    let one_ident = || match toks.as_slice() {
+        [Tok::Ident(s)] => Some(s.clone()),
+        _ => None,
+    };
+    let d = match kw {
+        "define" => one_ident().map(Dir::Define),
+        "undef" => one_ident().map(Dir::Undef),
+        "if" => parse_full_expr(&toks).map(Dir::If),
+        "elif" => parse_full_expr(&toks).map(Dir::Elif),
+        "else" => toks.is_empty().then_some(Dir::Else),
+        "endif" => toks.is_empty().then_some(Dir::Endif),
+        _ => None,
+    };
+    LineKind::Directive(d.unwrap_or(Dir::Malformed))
+}
+
+struct Frame {
+    parent_active: bool,
+    taken: bool,
+    active: bool,
+    seen_else: bool,
+}
+
+#[derive(Debug)]
+struct RefOut {
+    wellformed: bool,
+    /// rows (1-based) of the source lines that are selected
+    kept_rows: BTreeSet<usize>,
+    /// rows of the directive lines, and the row on which the text ends
+    directive_rows: BTreeSet<usize>,
+    last_row: usize,
+    /// some line was removed (a directive, or an unselected source line) and a source line after it was kept
+    nontrivial: bool,
+    end_syms: BTreeSet<String>,
+}
+
+fn reference(text: &str, start: &BTreeSet<String>) -> RefOut {
+    let mut syms = start.clone();
+    let mut stack: Vec<Frame> = vec![];
+    let mut ill = false;
+    let mut kept_rows = BTreeSet::new();
+    let mut directive_rows = BTreeSet::new();
+    let mut last_row = 1;
+    let mut removed_seen = false;
+    let mut nontrivial = false;
+    for (i, raw) in text.split('\n').enumerate() {
+        let row = i + 1;
+        last_row = row;
+        let active = stack.last().map_or(true, |f| f.active);
+        match classify(raw) {
+            LineKind::Blank => {}
+            LineKind::Source => {
+                if active {
+                    kept_rows.insert(row);
+                    if removed_seen && row > 1 {
+                        nontrivial = true;
+                    }
+                } else {
+                    removed_seen = true;
+                }
+            }
+            LineKind::Directive(d) => {
+                removed_seen = true;
+                directive_rows.insert(row);
+                match d {
+                    Dir::Malformed => ill = true,
+                    Dir::Define(s) => {
+                        if active {
+                            syms.insert(s);
+                        }
+                    }
+                    Dir::Undef(s) => {
+                        if active {
+                            syms.remove(&s);
+                        }
+                    }
+                    Dir::If(e) => {
+                        let v = active && eval(&e, &syms);
+                        stack.push(Frame { parent_active: active, taken: v, active: v, seen_else: false });
+                    }
+                    Dir::Elif(e) => match stack.last_mut() {
+                        Some(f) if !f.seen_else => {
+                            let v = f.parent_active && !f.taken && eval(&e, &syms);
+                            f.active = v;
+                            f.taken |= v;
+                        }
+                        _ => ill = true,
+                    },
+                    Dir::Else => match stack.last_mut() {
+                        Some(f) if !f.seen_else => {
+                            f.active = f.parent_active && !f.taken;
+                            f.taken = true;
+                            f.seen_else = true;
+                        }
+                        _ => ill = true,
+                    },
+                    Dir::Endif => {
+                        if stack.pop().is_none() {
+                            ill = true;
+                        }
+                    }
+                }
+            }
+        }
+    }
+    if !stack.is_empty() {
+        ill = true;
+    }
+    RefOut { wellformed: !ill, kept_rows, directive_rows, last_row, nontrivial, end_syms: syms }
+}
+
+// =====================================================================================================
+// File construction
+// =====================================================================================================
+
+#[derive(Clone, Debug)]
+struct Probe {
+    name: String,
+    /// 1-based column of the `struct` keyword
+    col: usize,
+    /// 1-based column of `Nope` (the probe then must produce an E033 there)
+    nope_col: Option<usize>,
+}
+
+#[derive(Clone, Debug)]
+struct PLine {
+    text: String,
+    probe: Option<Probe>,
+}
+
+#[derive(Clone, Copy, Debug, PartialEq)]
+struct Layout {
+    dir_indent: &'static str,
+    after_hash: &'static str,
+    trailer: &'static str,
+    eol: &'static str,
+    final_newline: bool,
+    probe_indent: &'static str,
+}
+
+const PLAIN: Layout = Layout { dir_indent: "", after_hash: "", trailer: "", eol: "\n", final_newline: true, probe_indent: "" };
+
+const DIR_INDENTS: [&str; 3] = ["", "  ", "\t"];
+const AFTER_HASH: [&str; 3] = ["", " ", "\t "];
+const TRAILERS: [&str; 3] = ["", " // note #else", "  "];
+const EOLS: [&str; 2] = ["\n", "\r\n"];
+const PROBE_INDENTS: [&str; 2] = ["", "   "];
+const N_LAYOUTS: u64 = 3 * 3 * 3 * 2 * 2 * 2;
+
+fn layout(idx: u64) -> Layout {
+    let d = decode_index(idx, &[3, 3, 3, 2, 2, 2]);
+    Layout {
+        dir_indent: DIR_INDENTS[d[0] as usize],
+        after_hash: AFTER_HASH[d[1] as usize],
+        trailer: TRAILERS[d[2] as usize],
+        eol: EOLS[d[3] as usize],
+        final_newline: d[4] == 0,
+        probe_indent: PROBE_INDENTS[d[5] as usize],
+    }
+}
+
+#[derive(Clone, Debug)]
+struct FileSpec {
+    lines: Vec<PLine>,
+    eol: &'static str,
+    final_newline: bool,
+}
+
+impl FileSpec {
+    fn new(l: &Layout) -> Self {
+        FileSpec { lines: vec![PLine { text: "module M".into(), probe: None }], eol: l.eol, final_newline: l.final_newline }
+    }
+    fn next_row(&self) -> usize {
+        self.lines.len() + 1
+    }
+    fn probe(&mut self, prefix: &str, l: &Layout, nope: bool) {
+        self.probe_at(prefix, l.probe_indent, nope)
+    }
+    fn probe_at(&mut self, prefix: &str, indent: &str, nope: bool) {
+        let name = format!("{prefix}{}", self.next_row());
+        let col = indent.chars().count() + 1;
+        let head = format!("{}struct {} {{", indent, name);
+        let (text, nope_col) = if nope {
+            let h = format!("{head} x: ");
+            let c = h.chars().count() + 1;
+            (format!("{h}Nope }}"), Some(c))
+        } else {
+            (format!("{head}}}"), None)
+        };
+        self.lines.push(PLine { text, probe: Some(Probe { name, col, nope_col }) });
+    }
+    /// `canonical` is the directive as written without layout, starting with '#'.
+    fn directive(&mut self, canonical: &str, l: &Layout) {
+        debug_assert!(canonical.starts_with('#'));
+        let text = format!("{}#{}{}{}", l.dir_indent, l.after_hash, &canonical[1..], l.trailer);
+        self.lines.push(PLine { text, probe: None });
+    }
+    fn blank(&mut self, l: &Layout) {
+        self.lines.push(PLine { text: l.dir_indent.to_string(), probe: None });
+    }
+    fn render(&self) -> String {
+        let mut s = String::new();
+        for (i, l) in self.lines.iter().enumerate() {
+            s.push_str(&l.text);
+            if i + 1 < self.lines.len() || self.final_newline {
+                s.push_str(self.eol);
+            }
+        }
+        s
+    }
+}
+
+// ---- the line alphabet of DESIGN §C06 ----
+
+const ALPHA: u64 = 14;
+const A_PROBE: u8 = 0;
+const A_BLANK: u8 = 1;
+const A_BAD: u8 = 13;
+const ALPHA_TEXT: [&str; 14] = [
+    "<probe>", "<blank>", "#define A", "#undef A", "#define B", "#if A", "#if !A", "#if A && B", "#if A || B", "#if (A)", "#elif B", "#else", "#endif",
+    "<malformed>",
+];
+/// The malformed slot of the alphabet takes a different concrete form at every line position, so that each
+/// form meets every context (lexer errors: `#foo`, `#if A &`, `#`; parser errors: the others).
+const BAD_ROT: [&str; 7] = ["#if", "#foo", "#if A &", "#else X", "#define", "#", "#endif X"];
+
+fn alpha_name(a: u8, pos: usize) -> String {
+    if a == A_BAD {
+        BAD_ROT[pos % BAD_ROT.len()].to_string()
+    } else {
+        ALPHA_TEXT[a as usize].to_string()
+    }
+}
+
+/// Probe at sequence position `pos` is the `Nope` variant iff (pos + flip) is odd; `flip` = "C is defined"
+/// (C is never mentioned by the alphabet, so the two alternations split the 8 symbol sets evenly and every
+/// position gets both variants for every valuation of A and B).
+fn build_seq_file(seq: &[u8], l: &Layout, flip: usize, prefix: &str) -> FileSpec {
+    let mut f = FileSpec::new(l);
+    for (pos, &a) in seq.iter().enumerate() {
+        match a {
+            A_PROBE => f.probe(prefix, l, (pos + flip) % 2 == 1),
+            A_BLANK => f.blank(l),
+            A_BAD => f.directive(BAD_ROT[pos % BAD_ROT.len()], l),
+            _ => f.directive(ALPHA_TEXT[a as usize], l),
+        }
+    }
+    f
+}
+
+/// Generator-side nesting check on alphabet indices (used only to *select* which sequences of length 7 are
+/// run; the oracle decides well-formedness again, independently, on the rendered text).
+fn seq_wellnested(seq: &[u8]) -> bool {
+    let mut stack: Vec<bool> = vec![];
+    for &a in seq {
+        match a {
+            5..=9 => stack.push(false),
+            10 => match stack.last() {
+                Some(false) => {}
+                _ => return false,
+            },
+            11 => match stack.last_mut() {
+                Some(e) if !*e => *e = true,
+                _ => return false,
+            },
+            12 => {
+                if stack.pop().is_none() {
+                    return false;
+                }
+            }
+            13 => return false,
+            _ => {}
+        }
+    }
+    stack.is_empty()
+}
+
+/// Can this prefix still be completed to a well-nested sequence with `room` more lines?
+fn prefix_viable(seq: &[u8], room: usize) -> bool {
+    let mut stack: Vec<bool> = vec![];
+    for &a in seq {
+        match a {
+            5..=9 => stack.push(false),
+            10 => match stack.last() {
+                Some(false) => {}
+                _ => return false,
+            },
+            11 => match stack.last_mut() {
+                Some(e) if !*e => *e = true,
+                _ => return false,
+            },
+            12 => {
+                if stack.pop().is_none() {
+                    return false;
+                }
+            }
+            13 => return false,
+            _ => {}
+        }
+    }
+    stack.len() <= room
+}
+
+// =====================================================================================================
+// Running the real compiler and comparing
+// =====================================================================================================
+
+const SYMS: [&str; 3] = ["A", "B", "C"];
+
+fn subset(mask: u32) -> Vec<&'static str> {
+    (0..3).filter(|i| mask >> i & 1 == 1).map(|i| SYMS[i]).collect()
+}
+
+#[derive(Debug)]
+struct ObsDiag {
+    code: String,
+    is_error: bool,
+    /// (file index, row, col) of the span start
+    at: Option<(usize, usize, usize)>,
+}
+
+#[derive(Debug)]
+struct Obs {
+    /// per file: (identifier, start row, start col)
+    defs: Vec<Vec<(String, usize, usize)>>,
+    diags: Vec<ObsDiag>,
+}
+
+fn run_real(texts: &[String], syms: &[&str]) -> Result<Obs, (String, String)> {
+    guarded(|| {
+        let mut options = SliceOptions::default();
+        options.defined_symbols = syms.iter().map(|s| s.to_string()).collect();
+        let inputs: Vec<&str> = texts.iter().map(|s| s.as_str()).collect();
+        let state = slicec::compile_from_strings(&inputs, Some(&options));
+        let defs = state
+            .files
+            .iter()
+            .map(|f| {
+                f.contents
+                    .iter()
+                    .map(|d| {
+                        let e = d.borrow();
+                        (e.identifier().to_owned(), e.span().start.row, e.span().start.col)
+                    })
+                    .collect()
+            })
+            .collect();
+        let slicec::compilation_state::CompilationState { ast, diagnostics, files } = state;
+        let diags = diagnostics
+            .into_inner()
+            .iter()
+            .map(|d| ObsDiag {
+                code: d.code().to_owned(),
+                is_error: d.level() == DiagnosticLevel::Error,
+                at: d.span().map(|s| {
+                    let fi = s.file.strip_prefix("string-").and_then(|n| n.parse::<usize>().ok()).unwrap_or(usize::MAX);
+                    (fi, s.start.row, s.start.col)
+                }),
+            })
+            .collect();
+        drop(files);
+        drop(ast);
+        Obs { defs, diags }
+    })
+}
+
+#[derive(Default)]
+struct Stats {
+    compiles: u64,
+    nontrivial: u64,
+    wellformed: u64,
+    wf_nontrivial: u64,
+    classes: BTreeMap<String, u64>,
+    max_kept: usize,
+    max_e002: usize,
+}
+
+impl Stats {
+    fn finish(self, out: &mut CaseOut) {
+        out.steps = self.compiles;
+        out.validated = (self.compiles > 0) as u64;
+        out.nontrivial = self.nontrivial > 0;
+        let bucket = if self.compiles == 0 { 0 } else { 1 + self.wellformed * 4 / self.compiles };
+        out.class = format!("wellformed-bucket={bucket}/max-kept={}/max-E002={}", self.max_kept, self.max_e002);
+        out.extra.push(("compiles".into(), self.compiles));
+        out.extra.push(("compiles_nontrivial".into(), self.nontrivial));
+        out.extra.push(("compiles_wellformed".into(), self.wellformed));
+        out.extra.push(("compiles_wellformed_nontrivial".into(), self.wf_nontrivial));
+        for (k, v) in self.classes {
+            out.extra.push((format!("outcome {k}"), v));
+        }
+        // one violation per signature per case (a case is a chunk of compilations)
+        let mut seen = BTreeSet::new();
+        out.violations.retain(|v| seen.insert(v.sig.clone()));
+    }
+}
+
+fn show_input(texts: &[String], syms: &[&str]) -> String {
+    let files: Vec<String> = texts.iter().enumerate().map(|(i, t)| format!("file {i}: {t:?}")).collect();
+    format!("-D {:?}; {}", syms, files.join("; "))
+}
+
+/// Compile the file set with the given command-line symbols and compare with the reference.
+fn check_files(fam: &str, files: &[FileSpec], mask: u32, out: &mut CaseOut, st: &mut Stats) {
+    let syms = subset(mask);
+    let texts: Vec<String> = files.iter().map(|f| f.render()).collect();
+    let start: BTreeSet<String> = syms.iter().map(|s| s.to_string()).collect();
+    let refs: Vec<RefOut> = texts.iter().map(|t| reference(t, &start)).collect();
+    // harness self-check: the generator's idea of a probe line agrees with the reference's line classification
+    for (f, t) in files.iter().zip(&texts) {
+        let n_lines = t.split('\n').count();
+        assert!(n_lines == f.lines.len() || n_lines == f.lines.len() + 1, "harness: line count");
+        for l in &f.lines {
+            if l.probe.is_some() {
+                assert!(classify(&l.text) == LineKind::Source, "harness: probe line not classified as source");
+            }
+        }
+    }
+    let all_wf = refs.iter().all(|r| r.wellformed);
+    st.compiles += 1;
+    if all_wf {
+        st.wellformed += 1;
+    }
+    let nontrivial = !all_wf || refs.iter().any(|r| r.nontrivial);
+    if nontrivial {
+        st.nontrivial += 1;
+        if all_wf {
+            st.wf_nontrivial += 1;
+        }
+    }
+
+    let obs = match run_real(&texts, &syms) {
+        Ok(o) => o,
+        Err((loc, msg)) => {
+            out.violate(format!("c06/{fam}/panic@{loc}"), format!("panic at {loc}: {msg}; input: {}", show_input(&texts, &syms)));
+            *st.classes.entry("panic".into()).or_insert(0) += 1;
+            return;
+        }
+    };
+    let e002 = obs.diags.iter().filter(|d| d.code == "E002" && d.is_error).count();
+    let kept_total: usize = obs.defs.iter().map(|d| d.len()).sum();
+    st.max_kept = st.max_kept.max(kept_total);
+    st.max_e002 = st.max_e002.max(e002);
+    *st.classes.entry(format!("{}/kept={}/E002={}", if all_wf { "wellformed" } else { "illformed" }, kept_total, e002)).or_insert(0) += 1;
+
+    if !all_wf {
+        for (i, r) in refs.iter().enumerate() {
+            if r.wellformed {
+                continue;
+            }
+            // "reported" = an E002 error located in this file on a directive line or where the text ends (an
+            // unterminated #if can only be noticed there); an E002 elsewhere is about something else.
+            let here = obs
+                .diags
+                .iter()
+                .filter(|d| d.code == "E002" && d.is_error && d.at.map_or(false, |a| a.0 == i && (r.directive_rows.contains(&a.1) || a.1 >= r.last_row)))
+                .count();
+            if here == 0 {
+                out.violate(
+                    format!("c06/{fam}/malformed-not-reported"),
+                    format!(
+                        "file {i} has a malformed or unbalanced directive but no E002 error located on a directive line (or at the end) of that file was reported; diagnostics: {:?}; input: {}",
+                        obs.diags,
+                        show_input(&texts, &syms)
+                    ),
+                );
+            }
+        }
+        return;
+    }
+
+    // (1) no error other than the expected E033s
+    if let Some(d) = obs.diags.iter().find(|d| d.is_error && d.code != "E033") {
+        out.violate(
+            format!("c06/{fam}/error-on-well-formed"),
+            format!("well-formed directives but error {} at {:?} was reported; input: {}", d.code, d.at, show_input(&texts, &syms)),
+        );
+        return;
+    }
+    // leak model: symbols carried over from the previous file (used only to name the defect)
+    let mut leaky: Vec<BTreeSet<String>> = vec![];
+    if files.len() > 1 {
+        let mut carry = start.clone();
+        for (f, t) in files.iter().zip(&texts) {
+            let r = reference(t, &carry);
+            leaky.push(f.lines.iter().enumerate().filter(|(i, l)| l.probe.is_some() && r.kept_rows.contains(&(i + 1))).map(|(_, l)| l.probe.as_ref().unwrap().name.clone()).collect());
+            carry = r.end_syms;
+        }
+    }
+    let mut expected_e033: BTreeSet<(usize, usize, usize)> = BTreeSet::new();
+    for (i, (f, r)) in files.iter().zip(&refs).enumerate() {
+        // (2) selected lines
+        let expected: Vec<(&Probe, usize)> = f.lines.iter().enumerate().filter(|(li, l)| l.probe.is_some() && r.kept_rows.contains(&(li + 1))).map(|(li, l)| (l.probe.as_ref().unwrap(), li + 1)).collect();
+        let exp_names: BTreeSet<String> = expected.iter().map(|(p, _)| p.name.clone()).collect();
+        let obs_names: BTreeSet<String> = obs.defs[i].iter().map(|d| d.0.clone()).collect();
+        if exp_names != obs_names || obs.defs[i].len() != expected.len() {
+            let leak = files.len() > 1 && leaky[i] == obs_names && leaky[i] != exp_names;
+            out.violate(
+                format!("c06/{fam}/{}", if leak { "symbol-leak-between-files" } else { "selected-lines" }),
+                format!(
+                    "file {i}: definitions that reached the parser {:?}, selected by the directives {:?}{}; input: {}",
+                    obs.defs[i].iter().map(|d| &d.0).collect::<Vec<_>>(),
+                    exp_names,
+                    if leak { " (observed = what symbols leaking from the previous file would select)" } else { "" },
+                    show_input(&texts, &syms)
+                ),
+            );
+            return;
+        }
+        // (3) positions
+        for (p, row) in &expected {
+            let d = obs.defs[i].iter().find(|d| d.0 == p.name).unwrap();
+            if (d.1, d.2) != (*row, p.col) {
+                out.violate(
+                    format!("c06/{fam}/position-shifted"),
+                    format!("file {i}: {} is written at {}:{} but its span starts at {}:{}; input: {}", p.name, row, p.col, d.1, d.2, show_input(&texts, &syms)),
+                );
+                return;
+            }
+            if let Some(c) = p.nope_col {
+                expected_e033.insert((i, *row, c));
+            }
+        }
+    }
+    // (4) diagnostics keep their position
+    let mut obs_e033: Vec<(usize, usize, usize)> = obs.diags.iter().filter(|d| d.code == "E033").map(|d| d.at.unwrap_or((usize::MAX, 0, 0))).collect();
+    obs_e033.sort();
+    let exp_e033: Vec<(usize, usize, usize)> = expected_e033.into_iter().collect();
+    if obs_e033 != exp_e033 {
+        out.violate(
+            format!("c06/{fam}/diagnostic-position"),
+            format!("E033 diagnostics expected at (file,row,col) {:?} (one per surviving `Nope`), reported at {:?}; input: {}", exp_e033, obs_e033, show_input(&texts, &syms)),
+        );
+    }
+}
+
+// =====================================================================================================
+// Family 1: all line sequences
+// =====================================================================================================
+
+/// All sequences of exactly `len` lines over the 14-line alphabet x 8 symbol sets.  A case = one prefix of
+/// length len-2, expanded with every 2-line suffix.  `only_wellnested`: run only the well-nested sequences.
+struct Seqs {
+    len: usize,
+    /// number of trailing lines expanded inside one case
+    chunk_len: usize,
+    only_wellnested: bool,
+    /// false: all 8 subsets of {A,B,C}; true: only the 4 subsets of {A,B} (C is never tested by the alphabet),
+    /// the probe alternation then follows the parity of the subset
+    ab_only: bool,
+}
+
+impl Seqs {
+    fn all(len: usize) -> Self {
+        Seqs { len, chunk_len: len.min(2), only_wellnested: false, ab_only: false }
+    }
+    fn wellnested(len: usize, ab_only: bool) -> Self {
+        Seqs { len, chunk_len: len.min(3), only_wellnested: true, ab_only }
+    }
+    fn chunk(&self) -> usize {
+        self.chunk_len
+    }
+    fn prefix(&self, idx: u64) -> Vec<u8> {
+        let p = self.len - self.chunk();
+        decode_index(idx, &vec![ALPHA; p]).into_iter().map(|d| d as u8).collect()
+    }
+}
+
+impl Family for Seqs {
+    fn name(&self) -> String {
+        if self.only_wellnested {
+            format!("sequences/well-nested/len={}{}", self.len, if self.ab_only { "/4-subsets-of-{A,B}" } else { "" })
+        } else {
+            format!("sequences/all/len={}", self.len)
+        }
+    }
+    fn len(&self) -> u64 {
+        ALPHA.pow((self.len - self.chunk()) as u32)
+    }
+    fn describe(&self, idx: u64) -> Value {
+        let prefix = self.prefix(idx);
+        let mut first = prefix.clone();
+        first.extend(std::iter::repeat(0u8).take(self.chunk()));
+        json!({
+            "file": "module M, then the prefix lines, then every suffix",
+            "prefix_lines": prefix.iter().enumerate().map(|(p, a)| alpha_name(*a, p)).collect::<Vec<_>>(),
+            "suffix": format!("every sequence of {} line(s) over the alphabet{}", self.chunk(), if self.only_wellnested { " that makes the whole file well nested" } else { "" }),
+            "alphabet": ALPHA_TEXT, "malformed_slot_by_position": BAD_ROT,
+            "probe": "struct P<row> {} / struct P<row> { x: Nope } alternating with the line position, alternation flipped when C is defined",
+            "symbol_sets": if self.ab_only { "the 4 subsets of {A,B} via SliceOptions.defined_symbols" } else { "all 8 subsets of {A,B,C} via SliceOptions.defined_symbols" },
+            "first_file_of_the_chunk": build_seq_file(&first, &PLAIN, 0, "P").render(),
+        })
+    }
+    fn run(&self, idx: u64) -> CaseOut {
+        let mut out = CaseOut::new(hash_str(&format!("c06-seq-{}-{}-{}-{idx}", self.len, self.only_wellnested, self.ab_only)));
+        let mut st = Stats::default();
+        let prefix = self.prefix(idx);
+        if self.only_wellnested && !prefix_viable(&prefix, self.chunk()) {
+            st.finish(&mut out);
+            out.class = "no-well-nested-completion".into();
+            return out;
+        }
+        let fam = if self.only_wellnested { "sequences-well-nested" } else { "sequences" };
+        let mut seq = prefix.clone();
+        seq.resize(self.len, 0);
+        let p = prefix.len();
+        for s in 0..ALPHA.pow(self.chunk() as u32) {
+            let d = decode_index(s, &vec![ALPHA; self.chunk()]);
+            for (k, v) in d.iter().enumerate() {
+                seq[p + k] = *v as u8;
+            }
+            if self.only_wellnested && !seq_wellnested(&seq) {
+                continue;
+            }
+            for mask in 0..(if self.ab_only { 4u32 } else { 8u32 }) {
+                let flip = if self.ab_only { (mask ^ mask >> 1) & 1 } else { mask >> 2 & 1 };
+                let f = build_seq_file(&seq, &PLAIN, flip as usize, "P");
+                check_files(fam, std::slice::from_ref(&f), mask, &mut out, &mut st);
+            }
+        }
+        st.finish(&mut out);
+        out
+    }
+}
+
+// =====================================================================================================
+// Family 2: expressions
+// =====================================================================================================
+
+#[derive(Clone, Debug)]
+enum GTerm {
+    Sym(usize),
+    Par(Box<GExpr>),
+}
+#[derive(Clone, Debug)]
+enum GExpr {
+    T(GTerm),
+    Not(GTerm),
+    And(Box<GExpr>, GTerm),
+    Or(Box<GExpr>, GTerm),
+}
+
+impl GTerm {
+    fn render(&self) -> String {
+        match self {
+            GTerm::Sym(i) => SYMS[*i].to_string(),
+            GTerm::Par(e) => format!("({})", e.render()),
+        }
+    }
+    fn eval(&self, mask: u32) -> bool {
+        match self {
+            GTerm::Sym(i) => mask >> i & 1 == 1,
+            GTerm::Par(e) => e.eval(mask),
+        }
+    }
+}
+impl GExpr {
+    fn render(&self) -> String {
+        match self {
+            GExpr::T(t) => t.render(),
+            GExpr::Not(t) => format!("!{}", t.render()),
+            GExpr::And(e, t) => format!("{} && {}", e.render(), t.render()),
+            GExpr::Or(e, t) => format!("{} || {}", e.render(), t.render()),
+        }
+    }
+    /// The rules of DESIGN §8: the left operand of `&&`/`||` is everything written before it.
+    fn eval(&self, mask: u32) -> bool {
+        match self {
+            GExpr::T(t) => t.eval(mask),
+            GExpr::Not(t) => !t.eval(mask),
+            GExpr::And(e, t) => e.eval(mask) && t.eval(mask),
+            GExpr::Or(e, t) => e.eval(mask) || t.eval(mask),
+        }
+    }
+}
+
+/// All expressions of the grammar whose tree (Symbol = 1; parentheses, `!`, `&&`, `||` add one level) has
+/// depth <= `depth`.
+fn gen_exprs(depth: usize) -> Vec<GExpr> {
+    let mut terms: Vec<GTerm> = (0..3).map(GTerm::Sym).collect(); // depth <= 1
+    let mut exprs: Vec<GExpr> = terms.iter().cloned().map(GExpr::T).collect();
+    for _ in 1..depth {
+        let mut nt: Vec<GTerm> = (0..3).map(GTerm::Sym).collect();
+        nt.extend(exprs.iter().cloned().map(|e| GTerm::Par(Box::new(e))));
+        let mut ne: Vec<GExpr> = nt.iter().cloned().map(GExpr::T).collect();
+        ne.extend(terms.iter().cloned().map(GExpr::Not));
+        for e in &exprs {
+            for t in &terms {
+                ne.push(GExpr::And(Box::new(e.clone()), t.clone()));
+                ne.push(GExpr::Or(Box::new(e.clone()), t.clone()));
+            }
+        }
+        terms = nt;
+        exprs = ne;
+    }
+    exprs
+}
+
+/// The file every expression is embedded in: once as `#if`, once as `#elif` after an `#if` that is false.
+fn build_expr_file(expr_text: &str) -> FileSpec {
+    let l = &PLAIN;
+    let mut f = FileSpec::new(l);
+    f.directive(&format!("#if {expr_text}"), l);
+    f.probe("P", l, true);
+    f.directive("#else", l);
+    f.probe("P", l, false);
+    f.directive("#endif", l);
+    f.directive("#if Z", l);
+    f.probe("P", l, false);
+    f.directive(&format!("#elif {expr_text}"), l);
+    f.probe("P", l, false);
+    f.directive("#else", l);
+    f.probe("P", l, true);
+    f.directive("#endif", l);
+    f.probe("P", l, false);
+    f
+}
+
+struct ExprTrees {
+    depth: usize,
+    exprs: Vec<GExpr>,
+}
+
+impl Family for ExprTrees {
+    fn name(&self) -> String {
+        format!("expressions/grammar-trees/depth<={}", self.depth)
+    }
+    fn len(&self) -> u64 {
+        self.exprs.len() as u64
+    }
+    fn describe(&self, idx: u64) -> Value {
+        let text = self.exprs[idx as usize].render();
+        json!({"expression": text, "valuations": "all 8 subsets of {A,B,C}", "file": build_expr_file(&text).render()})
+    }
+    fn run(&self, idx: u64) -> CaseOut {
+        let e = &self.exprs[idx as usize];
+        let text = e.render();
+        let mut out = CaseOut::new(hash_str(&format!("c06-expr-{text}")));
+        let mut st = Stats::default();
+        let f = build_expr_file(&text);
+        // harness self-check: the reference parser reads the rendered text back with the same meaning
+        let parsed = tokenize(&text).and_then(|t| parse_full_expr(&t)).expect("harness: reference grammar rejects a generated expression");
+        for mask in 0..8u32 {
+            let syms: BTreeSet<String> = subset(mask).iter().map(|s| s.to_string()).collect();
+            assert_eq!(eval(&parsed, &syms), e.eval(mask), "harness: reference parser and tree evaluation disagree on {text}");
+            check_files("expressions", std::slice::from_ref(&f), mask, &mut out, &mut st);
+        }
+        st.finish(&mut out);
+        out.nontrivial = true;
+        let truth: String = (0..8u32).map(|m| if e.eval(m) { '1' } else { '0' }).collect();
+        out.class = format!("truth-table={truth}");
+        out
+    }
+}
+
+/// Every token string of length <= max_len over {A, B, !, &&, ||, (, ), &} written with single blanks:
+/// accepted by the grammar => evaluated; rejected => at least one E002.
+struct ExprTokens {
+    max_len: usize,
+}
+const ETOKS: [&str; 8] = ["A", "B", "!", "&&", "||", "(", ")", "&"];
+
+impl ExprTokens {
+    fn text(&self, mut idx: u64) -> String {
+        let mut len = 0usize;
+        loop {
+            let n = (ETOKS.len() as u64).pow(len as u32);
+            if idx < n {
+                break;
+            }
+            idx -= n;
+            len += 1;
+        }
+        let d = decode_index(idx, &vec![ETOKS.len() as u64; len]);
+        d.iter().map(|t| ETOKS[*t as usize]).collect::<Vec<_>>().join(" ")
+    }
+}
+
+impl Family for ExprTokens {
+    fn name(&self) -> String {
+        format!("expressions/token-strings/len<={}", self.max_len)
+    }
+    fn len(&self) -> u64 {
+        (0..=self.max_len).map(|l| (ETOKS.len() as u64).pow(l as u32)).sum()
+    }
+    fn describe(&self, idx: u64) -> Value {
+        let text = self.text(idx);
+        let accepted = tokenize(&text).and_then(|t| parse_full_expr(&t)).is_some();
+        json!({"expression": text, "grammar_accepts": accepted, "valuations": "all 8 subsets of {A,B,C}", "file": build_expr_file(&text).render()})
+    }
+    fn run(&self, idx: u64) -> CaseOut {
+        let text = self.text(idx);
+        let mut out = CaseOut::new(hash_str(&format!("c06-etok-{text}")));
+        let mut st = Stats::default();
+        let f = build_expr_file(&text);
+        for mask in 0..8u32 {
+            check_files("expression-tokens", std::slice::from_ref(&f), mask, &mut out, &mut st);
+        }
+        let accepted = tokenize(&text).and_then(|t| parse_full_expr(&t));
+        st.finish(&mut out);
+        out.nontrivial = true;
+        out.class = match accepted {
+            Some(e) => {
+                let truth: String = (0..8u32).map(|m| if eval(&e, &subset(m).iter().map(|s| s.to_string()).collect()) { '1' } else { '0' }).collect();
+                format!("accepted/truth-table={truth}")
+            }
+            None => format!("rejected/{}", out.class),
+        };
+        out
+    }
+}
+
+// =====================================================================================================
+// Layout families
+// =====================================================================================================
+
+/// Longer fixed sequences (alphabet indices) used by the layout, malformed-form and multi-file families.
+const P: u8 = 0;
+const BASES: [&[u8]; 10] = [
+    &[P, 5, P, 12, P],                              // #if A .. #endif
+    &[6, P, 11, P, 12, P],                          // #if !A .. #else .. #endif
+    &[5, P, 10, P, 11, P, 12, P],                   // #if A / #elif B / #else
+    &[2, 5, 8, P, 12, P, 12, P],                    // define A; nested
+    &[5, 4, 12, 8, P, 11, P, 12],                   // define inside a region, tested afterwards
+    &[7, P, 11, 3, 6, P, 12, 12, P, 1, P],          // undef inside else, nested, blank
+    &[P, 1, 9, 1, P, 1, 12, 1, P],                  // blanks around everything
+    &[5, 6, P, 11, P, 12, 10, 9, P, 12, 11, P, 12], // deeper nesting inside #if and #elif
+    &[5, P, 11, P, 10, P, 12],                      // ill-formed: #elif after #else
+    &[P, 5, P, 6, P, 12, P],                        // ill-formed: EOF inside #if
+];
+
+/// (sequence, layout) x 8 symbol sets; sequences = all sequences of length <= max_len plus BASES.
+struct Layouts {
+    max_len: usize,
+}
+impl Layouts {
+    fn n_short(&self) -> u64 {
+        (0..=self.max_len).map(|l| ALPHA.pow(l as u32)).sum()
+    }
+    fn seq(&self, mut s: u64) -> Vec<u8> {
+        if s >= self.n_short() {
+            return BASES[(s - self.n_short()) as usize].to_vec();
+        }
+        let mut len = 0usize;
+        loop {
+            let n = ALPHA.pow(len as u32);
+            if s < n {
+                break;
+            }
+            s -= n;
+            len += 1;
+        }
+        decode_index(s, &vec![ALPHA; len]).into_iter().map(|d| d as u8).collect()
+    }
+}
+impl Family for Layouts {
+    fn name(&self) -> String {
+        format!("layouts/all-sequences-len<={}+{}-fixed x 216 layouts", self.max_len, BASES.len())
+    }
+    fn len(&self) -> u64 {
+        (self.n_short() + BASES.len() as u64) * N_LAYOUTS
+    }
+    fn describe(&self, idx: u64) -> Value {
+        let seq = self.seq(idx / N_LAYOUTS);
+        let l = layout(idx % N_LAYOUTS);
+        json!({
+            "lines": seq.iter().enumerate().map(|(p, a)| alpha_name(*a, p)).collect::<Vec<_>>(),
+            "layout": {"indent_before_hash": l.dir_indent, "after_hash": l.after_hash, "after_directive": l.trailer, "eol": l.eol, "final_newline": l.final_newline, "probe_indent": l.probe_indent},
+            "symbol_sets": "all 8 subsets of {A,B,C}",
+            "file": build_seq_file(&seq, &l, 0, "P").render(),
+        })
+    }
+    fn run(&self, idx: u64) -> CaseOut {
+        let seq = self.seq(idx / N_LAYOUTS);
+        let l = layout(idx % N_LAYOUTS);
+        let mut out = CaseOut::new(hash_str(&format!("c06-layout-{idx}-{}", self.max_len)));
+        let mut st = Stats::default();
+        for mask in 0..8u32 {
+            let f = build_seq_file(&seq, &l, (mask >> 2 & 1) as usize, "P");
+            check_files("layouts", std::slice::from_ref(&f), mask, &mut out, &mut st);
+        }
+        st.finish(&mut out);
+        out
+    }
+}
+
+/// Every malformed directive form inserted at every position of every well-formed base sequence.
+const BAD_FORMS: [&str; 34] = [
+    "#", "# ", "#if", "#if !", "#if A &", "#if A &&", "#if A | B", "#if A |", "#if && A", "#if A B", "#if !!A", "#if A && !B", "#if A || !B", "#if ()",
+    "#if (A", "#if A)", "#if (!)", "#if A /* c */", "#if A / B", "#if 1", "#if A == B", "#elif", "#elif !", "#else X", "#else !", "#endif X", "#endif (",
+    "#define", "#define A B", "#define !A", "#undef", "#undef (A)", "#foo", "#ifdef A",
+];
+
+struct BadForms;
+impl BadForms {
+    /// (base, position, form, with_companions)
+    fn cases() -> Vec<(usize, usize, usize, bool)> {
+        let mut v = vec![];
+        for (b, base) in BASES.iter().enumerate().take(8) {
+            for pos in 0..=base.len() {
+                for f in 0..BAD_FORMS.len() {
+                    v.push((b, pos, f, false));
+                    v.push((b, pos, f, true));
+                }
+            }
+        }
+        v
+    }
+    /// `with_companions`: the malformed directive is given the partner lines its well-formed counterpart would
+    /// need (`#if ..` + `#endif`; `#if A` + `#elif ..`/`#else ..` + `#endif`; `#if A` + `#endif ..`), so that a
+    /// preprocessor that silently *accepts* the form sees a balanced file; without companions a preprocessor that
+    /// silently *drops* the line sees a balanced file.  Either way the reference says: ill-formed.
+    fn build(b: usize, pos: usize, form: usize, with_companions: bool, flip: usize) -> FileSpec {
+        let l = &PLAIN;
+        let mut f = FileSpec::new(l);
+        let base = BASES[b];
+        let bad = BAD_FORMS[form];
+        for i in 0..=base.len() {
+            if i == pos {
+                let kw: String = bad[1..].trim_start().chars().take_while(|c| c.is_ascii_alphanumeric()).collect();
+                match (with_companions, kw.as_str()) {
+                    (true, "if") => {
+                        f.directive(bad, l);
+                        f.probe("Q", l, false);
+                        f.directive("#endif", l);
+                    }
+                    (true, "elif") | (true, "else") => {
+                        f.directive("#if A", l);
+                        f.directive(bad, l);
+                        f.probe("Q", l, false);
+                        f.directive("#endif", l);
+                    }
+                    (true, "endif") => {
+                        f.directive("#if A", l);
+                        f.probe("Q", l, false);
+                        f.directive(bad, l);
+                    }
+                    _ => f.directive(bad, l),
+                }
+            }
+            if i < base.len() {
+                match base[i] {
+                    A_PROBE => f.probe("P", l, (i + flip) % 2 == 1),
+                    A_BLANK => f.blank(l),
+                    a => f.directive(ALPHA_TEXT[a as usize], l),
+                }
+            }
+        }
+        f
+    }
+}
+impl Family for BadForms {
+    fn name(&self) -> String {
+        format!("malformed-forms/{} forms x every position of 8 well-formed files x with/without companion lines", BAD_FORMS.len())
+    }
+    fn len(&self) -> u64 {
+        Self::cases().len() as u64
+    }
+    fn describe(&self, idx: u64) -> Value {
+        let (b, pos, form, comp) = Self::cases()[idx as usize];
+        json!({"malformed_directive": BAD_FORMS[form], "inserted_before_line": pos, "with_companion_lines": comp, "symbol_sets": "all 8 subsets of {A,B,C}", "file": Self::build(b, pos, form, comp, 0).render()})
+    }
+    fn run(&self, idx: u64) -> CaseOut {
+        let (b, pos, form, comp) = Self::cases()[idx as usize];
+        let mut out = CaseOut::new(hash_str(&format!("c06-bad-{b}-{pos}-{form}-{comp}")));
+        let mut st = Stats::default();
+        // harness self-check: each listed form really is malformed for the reference
+        assert!(classify(BAD_FORMS[form]) == LineKind::Directive(Dir::Malformed), "harness: {} is not malformed", BAD_FORMS[form]);
+        for mask in 0..8u32 {
+            let f = Self::build(b, pos, form, comp, (mask >> 2 & 1) as usize);
+            check_files("malformed-forms", std::slice::from_ref(&f), mask, &mut out, &mut st);
+        }
+        st.finish(&mut out);
+        out
+    }
+}
+
+/// Deep nesting: a chain of `depth` conditionals, each nested inside the previous one's #if or #else branch,
+/// directives and probes indented by their depth.
+struct Nested {
+    depth: usize,
+}
+const NCONDS: [&str; 3] = ["A", "!A", "B"];
+impl Nested {
+    fn build(&self, idx: u64, flip: usize) -> FileSpec {
+        let choices = decode_index(idx, &vec![9; self.depth]);
+        // the flipped variant also uses CRLF line ends and trailing comments
+        let l = if flip == 1 { Layout { eol: "\r\n", trailer: " // c", ..PLAIN } } else { PLAIN };
+        let mut f = FileSpec::new(&l);
+        let mut n = flip;
+        self.emit(&mut f, &l, &choices, 0, &mut n);
+        f
+    }
+    fn emit(&self, f: &mut FileSpec, l: &Layout, choices: &[u64], level: usize, n: &mut usize) {
+        let (cond, shape) = (NCONDS[(choices[level] % 3) as usize], choices[level] / 3);
+        let ind = "  ".repeat(level);
+        let inner = "  ".repeat(level + 1);
+        let dir = |f: &mut FileSpec, text: &str| f.lines.push(PLine { text: format!("{ind}{text}{}", l.trailer), probe: None });
+        let probe = |f: &mut FileSpec, indent: &str, n: &mut usize| {
+            f.probe_at("P", indent, *n % 2 == 1);
+            *n += 1;
+        };
+        dir(f, &format!("#if {cond}"));
+        probe(f, &inner, n);
+        if shape != 2 && level + 1 < choices.len() {
+            self.emit(f, l, choices, level + 1, n);
+        }
+        if shape >= 1 {
+            dir(f, "#else");
+            probe(f, &inner, n);
+            if shape == 2 && level + 1 < choices.len() {
+                self.emit(f, l, choices, level + 1, n);
+            }
+        }
+        dir(f, "#endif");
+        probe(f, &ind, n);
+    }
+}
+impl Family for Nested {
+    fn name(&self) -> String {
+        format!("nesting/chains-of-depth-{}", self.depth)
+    }
+    fn len(&self) -> u64 {
+        9u64.pow(self.depth as u32)
+    }
+    fn describe(&self, idx: u64) -> Value {
+        json!({
+            "per_level": "condition in {A, !A, B} x shape in {no #else, #else with the next level inside the #if branch, #else with the next level inside the #else branch}",
+            "symbol_sets": "all 8 subsets of {A,B,C}; when C is defined the file uses CRLF and trailing comments and the probe variants are swapped",
+            "file": self.build(idx, 0).render(),
+        })
+    }
+    fn run(&self, idx: u64) -> CaseOut {
+        let mut out = CaseOut::new(hash_str(&format!("c06-nest-{}-{idx}", self.depth)));
+        let mut st = Stats::default();
+        for mask in 0..8u32 {
+            let f = self.build(idx, (mask >> 2 & 1) as usize);
+            check_files("nesting", std::slice::from_ref(&f), mask, &mut out, &mut st);
+        }
+        st.finish(&mut out);
+        out
+    }
+}
+
+// =====================================================================================================
+// Family 3: sets of files
+// =====================================================================================================
+
+/// Items a file of a set is made of.
+const ITEMS: [&str; 7] = ["#define A", "#undef A", "#define B", "#undef C", "test A", "test B", "test C"];
+
+fn build_item_file(items: &[u8], file_no: usize, flip: usize) -> FileSpec {
+    let l = &PLAIN;
+    let mut f = FileSpec::new(l);
+    let prefix = format!("F{file_no}L");
+    for (k, &it) in items.iter().enumerate() {
+        let name = ITEMS[it as usize];
+        if let Some(sym) = name.strip_prefix("test ") {
+            f.directive(&format!("#if {sym}"), l);
+            f.probe(&prefix, l, (k + flip) % 2 == 1);
+            f.directive("#else", l);
+            f.probe(&prefix, l, (k + flip) % 2 == 0);
+            f.directive("#endif", l);
+        } else {
+            f.directive(name, l);
+        }
+    }
+    f.probe(&prefix, l, false);
+    f
+}
+
+/// All `arity`-tuples of files with <= max_items items each, x 8 command-line symbol sets.
+struct FileSets {
+    arity: usize,
+    max_items: usize,
+    n_items: usize,
+}
+impl FileSets {
+    fn n_files(&self) -> u64 {
+        (0..=self.max_items).map(|l| (self.n_items as u64).pow(l as u32)).sum()
+    }
+    fn file_items(&self, mut s: u64) -> Vec<u8> {
+        let mut len = 0usize;
+        loop {
+            let n = (self.n_items as u64).pow(len as u32);
+            if s < n {
+                break;
+            }
+            s -= n;
+            len += 1;
+        }
+        decode_index(s, &vec![self.n_items as u64; len]).into_iter().map(|d| d as u8).collect()
+    }
+    fn files(&self, idx: u64, flip: usize) -> Vec<FileSpec> {
+        let d = decode_index(idx, &vec![self.n_files(); self.arity]);
+        d.iter().enumerate().map(|(i, s)| build_item_file(&self.file_items(*s), i, flip)).collect()
+    }
+}
+impl Family for FileSets {
+    fn name(&self) -> String {
+        format!("file-sets/{}-files/<={}-items-of-{}", self.arity, self.max_items, self.n_items)
+    }
+    fn len(&self) -> u64 {
+        self.n_files().pow(self.arity as u32)
+    }
+    fn describe(&self, idx: u64) -> Value {
+        let d = decode_index(idx, &vec![self.n_files(); self.arity]);
+        json!({
+            "files_as_items": d.iter().map(|s| self.file_items(*s).iter().map(|i| ITEMS[*i as usize]).collect::<Vec<_>>()).collect::<Vec<_>>(),
+            "test X": "#if X / probe / #else / probe / #endif",
+            "symbol_sets": "all 8 subsets of {A,B,C}",
+            "files": self.files(idx, 0).iter().map(|f| f.render()).collect::<Vec<_>>(),
+        })
+    }
+    fn run(&self, idx: u64) -> CaseOut {
+        let mut out = CaseOut::new(hash_str(&format!("c06-sets-{}-{}-{}-{idx}", self.arity, self.max_items, self.n_items)));
+        let mut st = Stats::default();
+        for mask in 0..8u32 {
+            // the probe variant alternation is flipped with B here (C is tested by the files)
+            let files = self.files(idx, (mask >> 1 & 1) as usize);
+            check_files("file-sets", &files, mask, &mut out, &mut st);
+        }
+        st.finish(&mut out);
+        // non-trivial for this family: some file defines/undefines a symbol that another file tests
+        let d = decode_index(idx, &vec![self.n_files(); self.arity]);
+        let items: Vec<Vec<u8>> = d.iter().map(|s| self.file_items(*s)).collect();
+        let sym_of = |i: u8| ITEMS[i as usize].chars().last().unwrap();
+        let mut cross = false;
+        for (i, a) in items.iter().enumerate() {
+            for (j, b) in items.iter().enumerate() {
+                if i != j && a.iter().any(|x| *x < 4 && b.iter().any(|y| *y >= 4 && sym_of(*y) == sym_of(*x))) {
+                    cross = true;
+                }
+            }
+        }
+        out.nontrivial = cross;
+        out
+    }
+}
+
+/// Sets containing one ill-formed file: it must be reported whatever surrounds it.
+struct FileSetsWithBad;
+const BAD_FILES: [&[&str]; 5] = [&["#endif"], &["#if A"], &["#else"], &["#if A", "#else", "#elif B", "#endif"], &["#define"]];
+impl Family for FileSetsWithBad {
+    fn name(&self) -> String {
+        "file-sets/one-ill-formed-file-among-three".into()
+    }
+    fn len(&self) -> u64 {
+        (BAD_FILES.len() * 3 * 8 * 8) as u64
+    }
+    fn describe(&self, idx: u64) -> Value {
+        json!({"files": self.build(idx).iter().map(|f| f.render()).collect::<Vec<_>>(), "symbol_sets": "all 8 subsets of {A,B,C}"})
+    }
+    fn run(&self, idx: u64) -> CaseOut {
+        let mut out = CaseOut::new(hash_str(&format!("c06-setsbad-{idx}")));
+        let mut st = Stats::default();
+        let files = self.build(idx);
+        for mask in 0..8u32 {
+            check_files("file-sets-ill-formed", &files, mask, &mut out, &mut st);
+        }
+        st.finish(&mut out);
+        out
+    }
+}
+impl FileSetsWithBad {
+    fn build(&self, idx: u64) -> Vec<FileSpec> {
+        let d = decode_index(idx, &[BAD_FILES.len() as u64, 3, 8, 8]);
+        let others = [d[2], d[3]];
+        let mut files = vec![];
+        let mut o = 0;
+        for i in 0..3usize {
+            if i as u64 == d[1] {
+                let l = &PLAIN;
+                let mut f = FileSpec::new(l);
+                f.probe(&format!("F{i}L"), l, false);
+                for line in BAD_FILES[d[0] as usize] {
+                    f.directive(line, l);
+                }
+                f.probe(&format!("F{i}L"), l, false);
+                files.push(f);
+            } else {
+                // the 8 files with <= 1 item
+                let items: Vec<u8> = if others[o] == 0 { vec![] } else { vec![(others[o] - 1) as u8] };
+                files.push(build_item_file(&items, i, 0));
+                o += 1;
+            }
+        }
+        files
+    }
+}
+
+// =====================================================================================================
+
+pub fn meta(m: &mut PropMeta) {
+    m.rule = "a file is `module M` followed by a sequence of lines over the 14-line alphabet {probe `struct P<row> {}` / `struct P<row> { x: Nope }` (alternating with the line position, alternation flipped when C is defined), blank, #define A, #undef A, #define B, #if A, #if !A, #if A && B, #if A || B, #if (A), #elif B, #else, #endif, a malformed directive (a different form at each line position: #if, #foo, #if A &, #else X, #define, #, #endif X)}; EVERY sequence (well nested or not) up to the bound x all 8 subsets of {A,B,C} given through SliceOptions.defined_symbols is compiled by the real compiler and compared with a reference preprocessor written from the statement (line classification, stack of regions, #define/#undef effective only in selected regions, from that line on, in that file). Well-formed => no Error other than one E033 per surviving Nope probe, files[i].contents = exactly the selected probes, each span starting at its original row and column, each E033 at the row of its probe and the column of `Nope`. Ill-formed (unbalanced, #elif/#else misplaced, EOF inside #if, malformed directive or expression - also inside unselected regions) => at least one E002 error located in that file on a directive line or where the text ends (no count demanded), no panic. Further families: all well-nested sequences of larger lengths (the largest one with the 4 subsets of {A,B} only - C is never tested by the alphabet); every expression of the grammar (['!'] term {('&&'|'||') term}, term = ident | '(' expr ')'; equal precedence, left associative) with tree depth <= bound over A,B,C x 8 valuations, used as #if and as #elif after a false #if; every token string over {A,B,!,&&,||,(,),&} up to the bound (grammar accepts => evaluated, rejects => E002); every sequence up to a smaller bound plus 10 fixed longer files x 216 layouts (indentation before '#', blanks after '#', trailing // comment or blanks, CRLF, no final newline, indented probes); 34 malformed directive forms inserted at every position of 8 well-formed files, with and without the companion lines their well-formed counterparts would need; chains of nested conditionals of depth 5/6 (condition x else-shape per level, indented, CRLF + comments in half of the runs); all pairs/triples of files made of items {#define A, #undef A, #define B, #undef C, test A, test B, test C} x 8 symbol sets (symbols must not leak between files, command-line symbols are visible in every file), and triples with one ill-formed file. A case is a chunk of compilations (one sequence prefix x every 2- or 3-line suffix x 8 symbol sets; one expression / (sequence, layout) / file set x 8 symbol sets); distinct = distinct chunks; steps = compilations. A compilation is non-trivial if it is ill-formed or if a line is removed and a probe after it survives; a chunk is non-trivial if it contains such a compilation (expression chunks always; file-set chunks when one file defines/undefines what another tests); prefixes of the well-nested families that cannot be completed run nothing and are trivial. Per-compilation outcome classes (well-formed?, definitions kept, number of E002) are counted in extra_counters (`outcome ...`, `compiles_wellformed_nontrivial`).";
+    m.explanation = "bounded-exhaustive enumeration of line histories x symbol sets on the real compiler, against a line-oriented reference preprocessor (stack of regions, define/undef state) written from the statement; plain index enumeration through the Family trait instead of stateright because the real preprocessor exposes no incremental state (the state is the line history)";
+    m.quick_bound = "all sequences of length <= 5 and all well-nested sequences of length 6, x 8 symbol sets; expression trees depth <= 3, token strings <= 5 tokens; layouts on all sequences <= 2 lines; nesting depth 5; pairs of files <= 2 items, triples <= 1 item";
+    m.thorough_bound = "all sequences of length <= 6 and all well-nested sequences of length 7, x 8 symbol sets; all well-nested sequences of length 8 x the 4 subsets of {A,B}; expression trees depth <= 4, token strings <= 6 tokens; layouts on all sequences <= 3 lines; nesting depth 6; pairs of files <= 3 items, triples <= 2 items";
+    m.quick_cap_s = 60.0;
+    m.thorough_cap_s = 900.0;
+}
+
+pub fn families(tier: &str) -> Vec<Box<dyn Family>> {
+    let quick = tier == "quick";
+    let mut v: Vec<Box<dyn Family>> = vec![];
+    // small, cheap families first so that a wall cap can only cut the largest sequence family
+    v.push(Box::new(ExprTrees { depth: if quick { 3 } else { 4 }, exprs: gen_exprs(if quick { 3 } else { 4 }) }));
+    v.push(Box::new(ExprTokens { max_len: if quick { 5 } else { 6 } }));
+    v.push(Box::new(BadForms));
+    v.push(Box::new(Layouts { max_len: if quick { 2 } else { 3 } }));
+    v.push(Box::new(FileSets { arity: 2, max_items: if quick { 2 } else { 3 }, n_items: 7 }));
+    v.push(Box::new(FileSets { arity: 3, max_items: if quick { 1 } else { 2 }, n_items: 7 }));
+    v.push(Box::new(FileSetsWithBad));
+    v.push(Box::new(Nested { depth: if quick { 5 } else { 6 } }));
+    for len in 0..=(if quick { 5 } else { 6 }) {
+        v.push(Box::new(Seqs::all(len)));
+    }
+    if quick {
+        v.push(Box::new(Seqs::wellnested(6, false)));
+    } else {
+        v.push(Box::new(Seqs::wellnested(7, false)));
+        v.push(Box::new(Seqs::wellnested(8, true)));
+    }
+    v
 }
